@@ -2,7 +2,7 @@
     [applyInverseTransforms] (internal/lossless/decode_transform.go).
 
     All definitions named [pinned_*] describe the tree as it was pinned (before
-    commit 032530d "fix: never run a VP8L inverse transform in place"); no
+    commit 56944c7 "fix: never run a VP8L inverse transform in place"); no
     run-time path (extraction, correspondence) uses them, they only carry the
     refutation.  The current code is modelled by [apply_inverse_pingpong].
 
